@@ -67,6 +67,7 @@ CASES = [
     ('split_once_unpack', [('s', S, lambda r: r.choice(['a=b', 'k=v=w', '=', 'abc', '', '=x'])), ('k', S, lambda r: r.choice(['a', 'k', '']))], I),
     ('index_then_slice', [('s', S, lambda r: r.choice(['a:b=c', 'T:t:x=0 1', 'S=a:k=v', 'a:b', 'ab=c', '', ':=', 'x:=:=']))], I),
     ('rsplit_once', [('s', S, lambda r: r.choice(['', ':', 'a:b', 'T:t:x', 'ab', ':x', 'x:', '::']))], I),
+    ('get_default_in_or', [('d_has_raw', B, _bool), ('raw', I, lambda r: r.choice([0, 1, 5])), ('n', I, _ints)], I),
     ('subscript_optional', [('xs', T.Opt(LI), lambda r: r.choice([None, [], [4], [2, 9]]))], I),
 ]
 SAFETY_KINDS = ('index', 'unpack', 'div', 'not-none', 'call-pre', 'zero')
